@@ -153,6 +153,16 @@ def replay_file(prop, path, timeout=120):
     env_ = dict(os.environ)
     src = os.path.dirname(os.environ.get("WSX_WAITRESS_SRC", "/repo/src/waitress").rstrip("/"))
     env_["PYTHONPATH"] = src + ":" + VERIF
+    import tempfile, shutil
+    pyc = tempfile.mkdtemp(prefix="wsx_pyc_")  # never trust a bytecode cache of a tree that may just have been edited
+    env_["PYTHONPYCACHEPREFIX"] = pyc
+    try:
+        return _replay_file(prop, path, timeout, env_)
+    finally:
+        shutil.rmtree(pyc, ignore_errors=True)
+
+
+def _replay_file(prop, path, timeout, env_):
     try:
         p = subprocess.run([sys.executable, "-m", "wsx.replay_main", prop, path], cwd=VERIF, env=env_,
                            capture_output=True, text=True, timeout=timeout)
